@@ -408,21 +408,16 @@ def check_type(T, qualifiers, do_ct=True):
     return status, stats, list(col.items.values())
 
 
-BULK = ("L2.rec2", "L2.rec3", "L2.inherit")      # the quadratic strata of nesting 2
-
-
 def qualifiers_for(stratum, T, thorough):
     """which from_bits qualifiers the run-time wrapper is built with"""
     if thorough:
         return ("value", "signal", "temporary", "ref", "variable") if L.width(T) <= 7 else ("value", "signal")
-    if stratum in BULK:
-        return ("value",)
     return ("value", "signal")
 
 
 def ct_for(stratum, T, thorough):
-    """constants-in-context wrapper: everywhere in thorough; quick skips it for the quadratic nesting-2 strata"""
-    return thorough or stratum not in BULK
+    """constants-in-context wrapper: for every composition"""
+    return True
 
 
 # ----------------------------------------------------------------------------------------------
